@@ -17,6 +17,33 @@ pub fn round_trip(_seed: u64) -> usize {
             }
         }
     }
+    // metadata crosses unchanged (empty values / keys, non-ASCII, many entries); wire entries are taken in order
+    for metas in [vec![("region", "eu"), ("maintenance", "")], vec![("", "x")], vec![("ключ", "значение"), ("players", "12"), ("a", "b"), ("c", "")], vec![]] {
+        let t = Target { identifier: "lobby-2".into(), address: SocketAddr::from_str("10.0.0.1:25565").unwrap(),
+                         meta: metas.iter().map(|(k, v)| (k.to_string(), v.to_string())).collect() };
+        let wire: proto::Target = (&t).into();
+        let mut sent: Vec<(String, String)> = wire.meta.iter().map(|e| (e.key.clone(), e.value.clone())).collect();
+        sent.sort();
+        let mut want: Vec<(String, String)> = t.meta.iter().map(|(k, v)| (k.clone(), v.clone())).collect();
+        want.sort();
+        if sent != want {
+            println!("REPRODUCED grpc metadata {metas:?} is sent to the service as {sent:?}");
+            found += 1;
+        }
+        match Target::try_from(wire) {
+            Ok(back) if back.meta == t.meta => {}
+            other => {
+                println!("REPRODUCED grpc metadata {metas:?} does not survive the gRPC boundary: {:?}", other.map(|b| b.meta).map_err(|e| e.to_string()));
+                found += 1;
+            }
+        }
+    }
+    let wire = proto::Target { identifier: "x".into(), address: Some(proto::Address { hostname: "10.0.0.1".into(), port: 1 }),
+        meta: vec![proto::MetaEntry { key: "k".into(), value: "1".into() }, proto::MetaEntry { key: "e".into(), value: "".into() }, proto::MetaEntry { key: "k".into(), value: "2".into() }] };
+    match Target::try_from(wire) {
+        Ok(t) if t.meta.len() == 2 && t.meta.get("k").map(String::as_str) == Some("2") && t.meta.get("e").map(String::as_str) == Some("") => {}
+        other => { println!("REPRODUCED grpc wire metadata [k=1, e=\"\", k=2] arrives as {:?}", other.map(|b| b.meta).map_err(|e| e.to_string())); found += 1; }
+    }
     // malformed replies must be rejected, never altered
     for (host, port) in [("127.0.0.1", 65536u32), ("127.0.0.1", 70000), ("not an ip", 25565)] {
         let wire = proto::Target { identifier: "x".into(), address: Some(proto::Address { hostname: host.into(), port }), meta: vec![] };
